@@ -11,6 +11,7 @@
      ARead     any later read through a view       View.fetch (no-op once fetched)
      ARelease  View.Release
      ATagAdd   AddTag of a tag with a data filter  AddTag
+     ATagDel / ATagUpd  DelTag / UpdateTag(query)   (which tag: observed by the harness, see below)
      AStart k  body of the parked job k            builder.FromPcap / index.Merge / search
      AComplete k  completion closure of job k      importPcapJob / mergeIndexesJob / updateTagJob
    Definitions only (computable, total); proofs are in IndexesProofs.v.
@@ -51,7 +52,8 @@ Record merge_job := mkMJ {
   mj_phase : phase;
   mj_merged : list file }.
 
-Record tag_job := mkTJ { tj_snap : list file; tj_phase : phase }.
+Record tag_job := mkTJ { tj_snap : list file; tj_phase : phase;
+  tj_valid : bool }.   (* false: the tag was deleted / redefined while the job was in flight (its result is discarded) *)
 
 Record state := mkState {
   indexes : list file;            (* mgr.indexes *)
@@ -243,6 +245,8 @@ Inductive action :=
 | ARead (v : N)
 | ARelease (v : N)
 | ATagAdd
+| ATagDel (wasunc hit : bool)     (* DelTag of a tag that was uncertain / is the tag of the job in flight *)
+| ATagUpd (wasunc hit : bool)     (* UpdateTag(query) with a new definition *)
 | AStart (k : kind)
 | AComplete (k : kind).
 
@@ -270,7 +274,7 @@ Definition start_tagging (st : state) : state :=
         let snap := copy_from 0 st in
         mkState (indexes st) (lock snap (used st)) (disk st) (queue st) (known st) (processed st) (next_cap st)
                 (next_id st) (next_uid st) (nunm st) (ntags st) (unc st) false
-                (ijob st) (mjob st) (Some (mkTJ snap AtStart)) (views st)
+                (ijob st) (mjob st) (Some (mkTJ snap AtStart true)) (views st)
   end.
 
 (* startMergeJobIfNeeded (no converter jobs in this model) *)
@@ -314,6 +318,12 @@ Fixpoint set_view (v : N) (s : list file) (vs : list (N * list file)) : list (N 
   match vs with
   | [] => []
   | (w, s0) :: r => if w =? v then (w, s) :: r else (w, s0) :: set_view v s r
+  end.
+
+Definition invalidate_tj (hit : bool) (o : option tag_job) : option tag_job :=
+  match o with
+  | Some (mkTJ snap ph v) => Some (mkTJ snap ph (if hit then false else v))
+  | None => None
   end.
 
 Variable refetch_empty : bool.   (* true: View.fetch before /repo 7300a1b (`len(v.indexes) != 0` as fetched flag) *)
@@ -368,6 +378,21 @@ Definition step (st : state) (a : action) : state :=
                  (next_id st) (next_uid st) (nunm st) (ntags st + 1)
                  (if next_id st =? 0 then unc st else unc st + 1) (dirty st)
                  (ijob st) (mjob st) (tjob st) (views st))
+  | ATagDel wasunc hit =>
+      if ntags st =? 0 then st
+      else
+        mkState (indexes st) (used st) (disk st) (queue st) (known st) (processed st) (next_cap st)
+                (next_id st) (next_uid st) (nunm st) (ntags st - 1)
+                (if wasunc then unc st - 1 else unc st) (dirty st)
+                (ijob st) (mjob st) (invalidate_tj hit (tjob st)) (views st)
+  | ATagUpd wasunc hit =>
+      if ntags st =? 0 then st
+      else
+        start_tagging
+          (mkState (indexes st) (used st) (disk st) (queue st) (known st) (processed st) (next_cap st)
+                   (next_id st) (next_uid st) (nunm st) (ntags st)
+                   ((if wasunc then unc st - 1 else unc st) + (if next_id st =? 0 then 0 else 1)) (dirty st)
+                   (ijob st) (mjob st) (invalidate_tj hit (tjob st)) (views st))
   | AStart KImport =>
       match ijob st with
       | Some (mkIJ caps nx snap AtStart _ _) =>
@@ -392,10 +417,10 @@ Definition step (st : state) (a : action) : state :=
       end
   | AStart KTag =>
       match tjob st with
-      | Some (mkTJ snap AtStart) =>
+      | Some (mkTJ snap AtStart v) =>
           mkState (indexes st) (used st) (disk st) (queue st) (known st) (processed st) (next_cap st)
                   (next_id st) (next_uid st) (nunm st) (ntags st) (unc st) (dirty st)
-                  (ijob st) (mjob st) (Some (mkTJ snap AtDone)) (views st)
+                  (ijob st) (mjob st) (Some (mkTJ snap AtDone v)) (views st)
       | _ => st
       end
   | AComplete KImport =>
@@ -438,8 +463,9 @@ Definition step (st : state) (a : action) : state :=
       end
   | AComplete KTag =>
       match tjob st with
-      | Some (mkTJ snap AtDone) =>
-          let unc1 := if dirty st then ntags st else unc st - 1 in
+      | Some (mkTJ snap AtDone v) =>
+          (* "don't touch the tag if it was modified": the whole publishing block is skipped *)
+          let unc1 := if v then (if dirty st then ntags st else unc st - 1) else unc st in
           let st1 := mkState (indexes st) (used st) (disk st) (queue st) (known st) (processed st) (next_cap st)
                              (next_id st) (next_uid st) (nunm st) (ntags st) unc1 (dirty st)
                              (ijob st) (mjob st) None (views st) in
@@ -458,6 +484,9 @@ Definition enabled (st : state) (a : action) : bool :=
   | AView v => match view_of v (views st) with None => true | Some _ => false end
   | ARead v | ARelease v => match view_of v (views st) with None => false | Some _ => true end
   | ATagAdd => true
+  | ATagDel wasunc hit | ATagUpd wasunc hit =>
+      negb (ntags st =? 0) && (if wasunc then negb (unc st =? 0) else true) &&
+      (if hit then match tjob st with Some _ => wasunc | None => false end else true)
   | AStart KImport => match ijob st with Some j => match ij_phase j with AtStart => true | _ => false end | None => false end
   | AStart KMerge => match mjob st with Some j => match mj_phase j with AtStart => true | _ => false end | None => false end
   | AStart KTag => match tjob st with Some j => match tj_phase j with AtStart => true | _ => false end | None => false end
